@@ -141,6 +141,22 @@ func (c *child) momentum() bool {
 	return err == nil && strings.TrimSpace(line) == "ok"
 }
 
+// executions of the side-effect probe so far (asked out of band, not through the rpc server)
+func (c *child) counter() (uint64, bool) {
+	if _, err := c.stdin.Write([]byte("c")); err != nil {
+		return 0, false
+	}
+	line, err := c.stdout.ReadString('\n')
+	var n uint64
+	if err != nil {
+		return 0, false
+	}
+	if _, err := fmt.Sscanf(strings.TrimSpace(line), "c %d", &n); err != nil {
+		return 0, false
+	}
+	return n, true
+}
+
 func (c *child) stop() {
 	c.stdin.Write([]byte("q"))
 	c.stdin.Close()
@@ -519,6 +535,9 @@ func newRegistry(info *childInfo) *registry {
 			r.calls[m.Name] = m.Params
 		}
 	}
+	if info.Bump != "" {
+		r.calls[info.Bump] = info.BumpParams
+	}
 	return r
 }
 
@@ -725,7 +744,10 @@ func viaRawHTTP(c *child, body []byte, ctype string) outcome {
 		if ctype != "" {
 			hdr = "Content-Type: " + ctype + "\r\n"
 		}
-		fmt.Fprintf(conn, "POST / HTTP/1.1\r\nHost: x\r\n%sContent-Length: %d\r\nConnection: close\r\n\r\n", hdr, len(body))
+		// no "Connection: close": for such a request net/http does not drain what the handler left unread of the body
+		// (trailing bytes behind the first JSON value) before it closes; the kernel then resets the connection and the
+		// unsent part of a large answer is lost. The connection is closed by us after the answer.
+		fmt.Fprintf(conn, "POST / HTTP/1.1\r\nHost: x\r\n%sContent-Length: %d\r\n\r\n", hdr, len(body))
 		conn.Write(body)
 	}()
 	resp, err := http.ReadResponse(bufio.NewReader(conn), nil)
@@ -1586,4 +1608,5 @@ func runHostile(rng *rand.Rand, n int, out *Out, _ []string) {
 		}
 	}
 	h.flows()
+	h.sizes(n)
 }
